@@ -21,6 +21,7 @@ structure Block where
   gauge : Int := 0
   extra : List String := []
   quies : Option (List (Nat × Nat × Bool) × List (Nat × Nat)) := none
+  ghost : List (Nat × List String) := []   -- the implementation's state of every registered session after the event
 deriving Inhabited
 
 structure Hist where
@@ -128,6 +129,73 @@ def diffKinds (a b : List Out) : List String :=
 
 def sortNat (l : List Nat) : List Nat := (l.toArray.qsort (· < ·)).toList
 
+/-! ### state correspondence: after every event the implementation's state of every registered session is the model's -/
+
+/-- first difference between the implementation's state lines and the model: (component, detail) -/
+def ghostDiff (srv : Server) (gs : List (Nat × List String)) : Option (String × String) :=
+  gs.findSome? fun (g : Nat × List String) =>
+    let (sid, toks) := g
+    match srv.sessions.find? (·.id == sid) with
+    | none => some ("session", s!"session {sid}: the implementation holds state for a session the model does not have")
+    | some s =>
+      match toks with
+      | "reg" :: pc :: ec :: tc :: ac :: subs :: types :: _ =>
+        let counters := [pc, ec, tc, ac].filterMap String.toNat?
+        let unpack (t : String) : List String := if t == "-" then [] else t.splitOn ","
+        let subsM := s.subs.map fun (x : Nat × Nat) => s!"{x.1}:{x.2}"
+        let typesI := (unpack types).filterMap fun (t : String) =>
+          match t.splitOn ":" with
+          | [a, b] => match a.toNat?, parseAll str [b] with | some a, some b => some (a, b) | _, _ => none
+          | _ => none
+        if counters != [s.pidCur, s.eidCur, s.tidCur, s.assetCur] then
+          some ("counters", s!"session {sid}: id counters (participant, entity, type, asset) model {[s.pidCur, s.eidCur, s.tidCur, s.assetCur]} implementation {counters}")
+        else if !(subsM.isPerm (unpack subs)) then
+          some ("subs", s!"session {sid}: subscriptions (type:participant) model {subsM} implementation {unpack subs}")
+        else if !(s.types.isPerm typesI) then
+          some ("types", s!"session {sid}: component types model {s.types} implementation {typesI}")
+        else none
+      | _ =>
+        match parseAll out toks with
+        | none => some ("parse", s!"session {sid}: unparseable state line {toks}")
+        | some o =>
+          match o with
+          | .sessionState p e c =>
+            let m := Out.sessionState s.pids (s.ents.map Entity.view) s.comps
+            if m.sameAs o then none
+            else if !(s.comps.isPerm c) then some ("comps", s!"session {sid}: components model {reprStr s.comps} implementation {reprStr c}")
+            else if !(s.pids.isPerm p) then some ("parts", s!"session {sid}: participants model {s.pids} implementation {p}")
+            else some ("ents", s!"session {sid}: entities model {reprStr (s.ents.map Entity.view)} implementation {reprStr e}")
+          | .vikjaState a =>
+            if (Out.vikjaState s.actions).sameAs o then none
+            else some ("actions", s!"session {sid}: entity actions model {reprStr s.actions} implementation {reprStr a}")
+          | .odalState a =>
+            if (Out.odalState s.assets).sameAs o then none
+            else some ("assets", s!"session {sid}: asset instances model {reprStr s.assets} implementation {reprStr a}")
+          | _ => none
+
+/-- which properties a state difference after this event is a failing input of -/
+def ghostBlame (iev : IEv) (ds : List Delivery) (outcome : Outcome) (what : String) : List (String × String) :=
+  let actor := evActor iev
+  let refused := ds.any fun (d : Delivery) => d.1 == actor && (match d.2 with | .error .. => true | _ => false)
+  let foreignAttempt := match iev with
+    | .handle _ (some (.entityDelete ..)) _ | .handle _ (some (.updatePose ..)) _ | .handle _ (some (.assetAdd ..)) _ => true
+    | _ => false
+  let departure := match iev, outcome with
+    | .disconnect _, _ => true
+    | .handle _ (some (.join ..)) _, _ => true
+    | .handle .., .connError => true
+    | .recv .., .connError => true
+    | _, _ => false
+  (if what == "comps" || what == "parts" || what == "ents" || what == "actions" || what == "assets" then
+    [("C01", "newcomer-would-be-handed-another-state")] else []) ++
+  (if refused then [("C04", "refused-request-changed-state")] else []) ++
+  (if refused && foreignAttempt then [("C05", "refused-request-changed-state")] else []) ++
+  (if departure then [("C06", "departure-state-differs")] else []) ++
+  (if what == "subs" then [("C13", "subscriptions-differ")] else []) ++
+  (if what == "comps" || what == "types" then [("C12", "component-store-differs")] else []) ++
+  (if what == "actions" || what == "assets" then [("C16", "module-state-differs")] else []) ++
+  (if what == "counters" then [("C10", "id-counter-differs")] else [])
+
 def processBlock (h : Hist) (b : Block) (outcome : Outcome) : Hist :=
   let evNo := h.nEvents
   let h := { h with nEvents := h.nEvents + 1, nDeliv := h.nDeliv + b.ds.length,
@@ -158,7 +226,12 @@ def processBlock (h : Hist) (b : Block) (outcome : Outcome) : Hist :=
           { h with diff := some s!"event={evNo} kind=state topic={topic} :: model sessions {ms} implementation {b.sessions}" }
         else if srv'.gauge != b.gauge then
           { h with diff := some s!"event={evNo} kind=gauge topic={topic} :: model {srv'.gauge} implementation {b.gauge}" }
-        else h
+        else match ghostDiff srv' b.ghost with
+          | none => h
+          | some (what, detail) =>
+            let d := s!"after event {evNo} ({" ".intercalate (b.ev.take 6)}) {detail}"
+            { h with diff := some s!"event={evNo} kind=ghost-{what} topic={topic} :: {detail}",
+                     concViol := (ghostBlame iev b.ds outcome what).foldl (fun (v : Array (String × String × String)) (x : String × String) => v.push (x.1, x.2, d)) h.concViol }
 
 /-! ### concurrent blocks: the implementation must behave like some serial order of the same requests on the model -/
 
@@ -387,6 +460,10 @@ partial def loop (stdin : IO.FS.Stream) (h : Option Hist) (b : Block) : IO Unit 
     let ids := (rest.filter fun t => !(t.startsWith "g=") && !(t.startsWith "[")).filterMap String.toNat?
     loop stdin h { b with sessions := ids, gauge }
   | "X" :: rest => loop stdin h { b with extra := b.extra ++ [" ".intercalate rest] }
+  | "G" :: sid :: rest =>
+    match sid.toNat? with
+    | some sid => loop stdin h { b with ghost := b.ghost ++ [(sid, rest)] }
+    | none => loop stdin h b
   | "Q" :: "members" :: rest =>
     let (ms, ss) := rest.span (· != "|")
     let nums (t : String) : List Nat := (t.splitOn ":").filterMap String.toNat?
